@@ -14,8 +14,8 @@ from graphtage.graphtage import StringEdit
 ID = 'C11'
 TITLE = 'String changes are minimal'
 LEVEL = 'exploration'
-RULE = ("exhaustive: every ordered pair of strings over {a,b} up to length 5 (quick) / 7 (thorough) and over {a,b,c} "
-        "up to length 3 / 5; sampled: Hypothesis text over 2-4 letter alphabets up to length 40 built as "
+RULE = ("exhaustive: every ordered pair of strings over {a,b} up to length 5 (quick) / 7 (thorough), over {a,b,c} "
+        "up to length 3 / 5 and over the non-ASCII alphabet {é,日} up to length 4 / 6; sampled: Hypothesis text over 2-4 letter ASCII and non-ASCII (accented, Greek, Cyrillic, CJK, astral) alphabets up to length 40 built as "
         "prefix+middle+suffix with shared affixes and repeated runs. Oracle: reference LCS by dynamic programming; the "
         "script's from-side must spell a, its to-side b, kept characters are pairwise equal and their number equals "
         "LCS(a,b) (so removed=len(a)-LCS, inserted=len(b)-LCS), the same counts are read back from the ANSI rendering. "
@@ -38,9 +38,9 @@ def EXHAUSTIVE(tier):
 
 
 def coverage_extra(tier):
-    la, lb = ((5, 3) if tier == 'quick' else (7, 5))
-    return {'explanation': f"exhaustive part: all ordered pairs over {{a,b}} with lengths <= {la} and over {{a,b,c}} with "
-                           f"lengths <= {lb}; the sampled part (longer strings) is not exhaustive"}
+    la, lb, lc = ((5, 3, 4) if tier == 'quick' else (7, 5, 6))
+    return {'explanation': f"exhaustive part: all ordered pairs over {{a,b}} with lengths <= {la}, over {{a,b,c}} with "
+                           f"lengths <= {lb} and over {{é,日}} with lengths <= {lc}; the sampled part (longer strings) is not exhaustive"}
 
 
 def lcs(a, b):
@@ -62,10 +62,10 @@ NSHARDS = 16
 
 def jobs(tier):
     if tier == 'quick':
-        en = [('ab', 5), ('abc', 3)]
+        en = [('ab', 5), ('abc', 3), ('é日', 4)]
         samp = 60
     else:
-        en = [('ab', 7), ('abc', 5)]
+        en = [('ab', 7), ('abc', 5), ('é日', 6), ('aé😀', 4)]
         samp = 1500
     js = []
     for alpha, ml in en:
@@ -78,7 +78,7 @@ def jobs(tier):
 
 @st.composite
 def sampled_pairs(draw):
-    alpha = draw(st.sampled_from(['ab', 'abc', 'abcd', 'aab']))
+    alpha = draw(st.sampled_from(['ab', 'abc', 'abcd', 'aab', 'éè', 'αβγ', '日本語', 'a😀é', 'привет мир']))
     t = st.text(alphabet=alpha, max_size=12)
     run = st.builds(lambda c, n: c * n, st.sampled_from(list(alpha)), st.integers(0, 6))
     piece = st.one_of(t, run)
